@@ -90,6 +90,10 @@ class Procedure[T_Ret]:
 			return self.__result()
 		except AssertionError:
 			raise Errors.Logic(root, len(self.__stack), 'Invalid number of stacks')
+		except Errors.Error:
+			raise
+		except Exception as e:
+			raise Errors.Fatal(root, 'Unhandled error', e) from e
 
 	@property
 	def __stack(self) -> list[T_Ret]:
